@@ -187,6 +187,7 @@ def process_history(h):
         for ac in order:
             arg = make_array(ac, 2, "/'h'/'h'", 0, 0)[0]
             w.write_segment([ChannelObject("h", ac, arg, {"p": 1})])
+    return len(order)
 
 
 def run_program(rec, seed, target="stream", index=False, version=4712):
@@ -209,7 +210,7 @@ def run_program(rec, seed, target="stream", index=False, version=4712):
     writer = None
     nwrites = 0
     try:
-        process_history(zlib.crc32(repr(prog).encode()) + seed)
+        history_writes = process_history(zlib.crc32(repr(prog).encode()) + seed)
         for call in prog:
             if call["call"] == "open":
                 if target == "path":
@@ -261,7 +262,7 @@ def run_program(rec, seed, target="stream", index=False, version=4712):
         if tmp:
             shutil.rmtree(tmp, ignore_errors=True)
     return {"data": data, "index": idx, "exp_data": exp_data, "exp_dtypes": exp_dtypes, "read_mode": read_mode,
-            "prop_exp": prop_exp, "nwrites": nwrites}
+            "prop_exp": prop_exp, "nwrites": nwrites, "history_writes": history_writes}
 
 
 def replay_writer_case(case):
@@ -312,7 +313,8 @@ def replay_writer_case(case):
     obs = {}
     if impl:
         spec_paths = [[o["p"] for o in seg["objs"]] for seg in rec["emitted"]]
-        obs["writer_calls_refined" if [r["paths"] for r in impl] == spec_paths else "writer_calls_not_refined"] = 1
+        mine = impl[out.get("history_writes", 0):]      # the hook also logged the process history's writer
+        obs["writer_calls_refined" if [r["paths"] for r in mine] == spec_paths else "writer_calls_not_refined"] = 1
     bundle = {"prog": rec["prog"], "cls": rec["cls"], "seed": seed, "target": target, "version": version,
               "hex": out["data"].hex()}
     try:
